@@ -157,9 +157,9 @@ class WccnReplay:
         self.groups = {}        # (data, part) -> (W, scenario) first seen
         self.fails = []         # (clause, detail dict, rec, observed)
 
-    def fail(self, clause, rec, kind, detail, observed=None, pyorder=None):
+    def fail(self, clause, rec, kind, detail, observed=None, pyorder=None, variant=None):
         self.fails.append({"clause": clause, "rec": rec, "input": kind, "detail": detail, "observed": observed,
-                           "pyorder": pyorder})
+                           "pyorder": pyorder, "variant": variant})
 
     def fit(self, rec, kind, variant=None):
         """-> (W, Z) or raises"""
@@ -178,7 +178,7 @@ class WccnReplay:
             Z = np.array([np.asarray(z, dtype=float) for z in t.transform(da.from_array(X, chunks=chunks))])
         return W, Z
 
-    def one(self, rec, with_dask):
+    def one(self, rec, with_dask, forced=None):
         ck = self.ck
         dm = len(rec["X"][0])
         n = len(rec["X"])
@@ -190,7 +190,7 @@ class WccnReplay:
         scn = {k: rec[k] for k in ("data", "part", "lab", "sp", "X", "y")}
         kinds = [("numpy", None)]
         if with_dask:
-            kinds.append(("dask", dask_variant(self.rng, n, dm)))
+            kinds.append(("dask", forced or dask_variant(self.rng, n, dm)))
         Wnp = None
         allok = True
         for kind, variant in kinds:
@@ -201,12 +201,12 @@ class WccnReplay:
                 W, Z = self.fit(rec, kind, variant)
             except Exception as e:       # the property promises a projection for every full-rank labelled set
                 self.fail("FitRaised", rec, tag, "%s: %s" % (type(e).__name__, e),
-                          observed={"raised": type(e).__name__}, pyorder=pyorder)
+                          observed={"raised": type(e).__name__}, pyorder=pyorder, variant=variant)
                 allok = False
                 continue
             bad = check_factor(W, dm)
             if bad:
-                self.fail("LowerTriangularPositiveDiagonal", rec, tag, bad, pyorder=pyorder)
+                self.fail("LowerTriangularPositiveDiagonal", rec, tag, bad, pyorder=pyorder, variant=variant)
                 allok = False
                 continue
             G = W @ W.T
@@ -218,14 +218,14 @@ class WccnReplay:
                 self.fail("ScaledScatterIsModel", rec, tag,
                           "inv(W W^T) = %s, model S/K = %s (K = %d); W W^T = %s, model inverse = %s"
                           % (Gi.tolist(), exp.tolist(), K, G.tolist(), P.tolist()),
-                          observed={"Ssc": Gi.tolist()}, pyorder=pyorder)
+                          observed={"Ssc": Gi.tolist()}, pyorder=pyorder, variant=variant)
                 allok = False
                 continue
             Sz = within_scatter(Z, y) / K if Z.shape == (n, dm) else None
             if Sz is None or not allclose(Sz, np.eye(dm)):
                 self.fail("TransformedScatterIsIdentity", rec, tag,
                           "within-class scatter of transform(X) / %d = %s" % (K, None if Sz is None else Sz.tolist()),
-                          pyorder=pyorder)
+                          pyorder=pyorder, variant=variant)
                 allok = False
                 continue
             if kind == "numpy":
@@ -234,11 +234,11 @@ class WccnReplay:
                 if not allclose(W, g[0]):
                     self.fail("SamePartitionSameW", rec, tag,
                               "weights %s differ from %s obtained for the same partition with X=%s y=%s"
-                              % (W.tolist(), g[0].tolist(), g[1]["X"], g[1]["y"]), pyorder=pyorder)
+                              % (W.tolist(), g[0].tolist(), g[1]["X"], g[1]["y"]), pyorder=pyorder, variant=variant)
                     allok = False
             elif Wnp is not None and not allclose(W, Wnp):
                 self.fail("DaskEqNumpy", rec, tag, "Dask weights %s, NumPy weights %s" % (W.tolist(), Wnp.tolist()),
-                          pyorder=pyorder)
+                          pyorder=pyorder, variant=variant)
                 allok = False
         if allok:
             ck.sample({"mechanism": "M2", "module": "Wccn", "scenario": scn, "iteration_order_in_model": rec["order"],
@@ -253,8 +253,9 @@ class WccnReplay:
         for f in self.fails:
             r = f["rec"]
             scen.setdefault(key([r["data"], r["part"], r["lab"], r["sp"]]), f)
-            if len(scen) >= 40:
-                break
+        # a seeded sample of the failing scenarios (TLC explores the product of their components)
+        pick = self.rng.sample(sorted(scen), min(10, len(scen)))
+        scen = {k: scen[k] for k in pick}
         devrecs = {}
         try:
             by_shape = {}
@@ -272,6 +273,7 @@ class WccnReplay:
                     devrecs[key([d["data"], d["part"], d["lab"], d["sp"], d["order"]])] = d
         except tlc.MachineryError as e:
             ck.notes.append("classification run failed: %s" % str(e)[:200])
+        out = []
         counts, classes = {}, {"matches_as_implemented_model": 0, "not_explained_by_deviation": 0, "not_classified": 0}
         for f in self.fails:
             r = f["rec"]
@@ -291,18 +293,22 @@ class WccnReplay:
                 classes["matches_as_implemented_model" if same else "not_explained_by_deviation"] += 1
             else:
                 classes["not_classified"] += 1
-            ck.violation("M2:Wccn:" + f["clause"],
+            out.append((cls == "not classified", "M2:Wccn:" + f["clause"],
                          {"mechanism": "M2", "module": "Wccn", "input": f["input"],
                           "scenario": {"X": r["X"], "y": r["y"], "data": r["data"], "part": r["part"], "lab": r["lab"],
                                        "sp": r["sp"]},
                           "python_set_order": f["pyorder"],
                           "expected": {"scaled_scatter": r["Ssc"], "inverse": r["P"]},
-                          "detail": f["detail"], "classification": cls})
+                          "detail": f["detail"], "classification": cls,
+                          "record": r, "dask_variant": f["variant"]}))
+        out.sort(key=lambda t: t[0])          # the replay file of a clause shows a classified case when there is one
+        for _, clause, rep in out:
+            ck.violation(clause, rep)
         ck.extra["wccn_mismatches"] = {"by_clause": counts, "classification": classes}
 
 
 # ------------------------------------------------------------------ replay: whitening
-def replay_whitening(ck, em, rec, rng, with_dask):
+def replay_whitening(ck, em, rec, rng, with_dask, forced=None):
     import dask
     import dask.array as da
     X = np.array(rec["data"], dtype=float)
@@ -314,7 +320,7 @@ def replay_whitening(ck, em, rec, rng, with_dask):
     kinds = [("numpy", None)]
     if with_dask:
         chunks, _, sk = dask_variant(rng, n, dm)
-        kinds.append(("dask", (chunks, sk)))
+        kinds.append(("dask", forced or (chunks, sk)))
     Wnp = None
     allok = True
     for kind, variant in kinds:
@@ -325,7 +331,8 @@ def replay_whitening(ck, em, rec, rng, with_dask):
         def bad(clause, detail):
             ck.violation("M2:Whitening:" + clause,
                          {"mechanism": "M2", "module": "Whitening", "input": tag, "scenario": scn,
-                          "expected": {"mean": rec["mean"], "cov": rec["cov"], "inverse": rec["P"]}, "detail": detail})
+                          "expected": {"mean": rec["mean"], "cov": rec["cov"], "inverse": rec["P"]}, "detail": detail,
+                          "record": rec, "dask_variant": variant})
         try:
             if kind == "numpy":
                 t = em.Whitening().fit(X)
@@ -392,6 +399,18 @@ def run(ck):
         "order Python's set gives and must produce the order-independent result",
         "W itself is not computed by TLC: it is characterised by lower-triangular, positive diagonal, W W^T = exact inverse",
         "float comparison |obs-exp| <= 1e-8 max(1,|exp|)"]
+    case = getattr(ck, "replay_case", None)
+    if case and case.get("record"):      # ./check C14 --replay <file>: re-execute exactly that scenario
+        v = case.get("dask_variant")
+        if v:
+            v = [tuple(tuple(c) for c in v[0])] + list(v[1:])
+        if case.get("module") == "Whitening":
+            replay_whitening(ck, em, case["record"], rng, True, forced=tuple(v) if v else None)
+        else:
+            wr = WccnReplay(ck, em, rng)
+            wr.one(case["record"], True, forced=tuple(v) if v else None)
+            wr.report()
+        return
     labs = label_maps()
     vals1 = [0, 1, 2, 3, 5]
     vals2 = [0, 1, 3]
@@ -425,6 +444,8 @@ def run(ck):
     ck.extra["exported"] = {"wccn": len(wrecs), "whitening": len(hrecs)}
 
     # ---- M2
+    wrecs.sort(key=key)      # TLC's workers print in a varying order; sampling must depend on the seed only
+    hrecs.sort(key=key)
     wr = WccnReplay(ck, em, rng)
     if quick and len(wrecs) > 3000:
         wrecs = rng.sample(wrecs, 3000)
